@@ -511,4 +511,7 @@ def run(ctx: Ctx, repo: Repo, tier: str) -> None:
     ctx.attempt(rule_get_stub, ctx, repo)
     ctx.attempt(rule_status, ctx, repo)
     ctx.attempt(rule_params_ignored, ctx, repo)
+    # "the output equals what the decodable traces alone would produce": a stale class name is not decoded to some other class
+    from . import c08 as _c08
+    ctx.attempt(_c08.rule_no_impostor, ctx, repo)
     ctx.settle()
